@@ -420,7 +420,7 @@ func runC20(p *core.Prog, r *core.Report, tier string) {
 			f := pin.insFns[i]
 			base := core.FnKey(f) + "|pending-mark"
 			mu := ins.Instr.(*ssa.MapUpdate)
-			r.Check(la.HeldAt(f)[ins.Instr].HasName("pendingAttestationsMutex", true), "C20.2", base+"|set-locked", p.Pos(ins.Instr.Pos()), "mark set under its mutex", "the pending mark is set without pendingAttestationsMutex")
+			r.Check(heldGuard(p, la, la.HeldAt(f)[ins.Instr], pend, true), "C20.2", base+"|set-locked", p.Pos(ins.Instr.Pos()), "mark set under its mutex", "the pending mark is set without pendingAttestationsMutex")
 			kd := ds.D(mu.Key)
 			r.Check(kd.IsCall("services/attester.Duty.Slot"), "C20.2", base+"|set-key", p.Pos(ins.Instr.Pos()), "mark keyed by duty.Slot()", "mark keyed by "+kd.String())
 			// the goroutine that schedules the attestation job is started only after the mark
@@ -493,7 +493,7 @@ func runC20(p *core.Prog, r *core.Report, tier string) {
 								def = x
 								kd := ds.D(op.Key)
 								r.Check(kd.IsCall("services/attester.Duty.Slot"), "C20.2", core.FnKey(job)+"|clear-key", p.Pos(op.Instr.Pos()), "mark cleared for duty.Slot()", "the deferred clear uses key "+kd.String())
-								r.Check(la.HeldAt(cf)[op.Instr].HasName("pendingAttestationsMutex", true), "C20.2", core.FnKey(job)+"|clear-locked", p.Pos(op.Instr.Pos()), "mark cleared under its mutex", "mark cleared without its mutex")
+								r.Check(heldGuard(p, la, la.HeldAt(cf)[op.Instr], pend, true), "C20.2", core.FnKey(job)+"|clear-locked", p.Pos(op.Instr.Pos()), "mark cleared under its mutex", "mark cleared without its mutex")
 							}
 						}
 					}
@@ -559,7 +559,7 @@ func runC20(p *core.Prog, r *core.Report, tier string) {
 			for _, op := range core.MapOps(hp) {
 				if op.Kind == "lookup" && op.Field == pend {
 					okRead = true
-					r.Check(la.HeldAt(hp)[op.Instr].HasName("pendingAttestationsMutex", false), "C20.2", core.FnKey(hp)+"|read-locked", p.Pos(op.Instr.Pos()), "mark read under its mutex", "mark read without its mutex")
+					r.Check(heldGuard(p, la, la.HeldAt(hp)[op.Instr], pend, false), "C20.2", core.FnKey(hp)+"|read-locked", p.Pos(op.Instr.Pos()), "mark read under its mutex", "mark read without its mutex")
 					kd := ds.D(op.Key)
 					r.Check(kd.Kind == "param", "C20.2", core.FnKey(hp)+"|read-key", p.Pos(op.Instr.Pos()), "reads the mark of the slot asked for", "reads the mark of "+kd.String())
 				}
